@@ -1,11 +1,12 @@
 (** C14 — reader side: OpenFile's validation of a byte string and the readAt
     wrapper.  Executable, no proofs.
 
-    Go sources mirrored (/repo/file.go):
+    Go sources mirrored (lines of `git show 6b7b39f:file.go`):
       65-131    OpenFile: header magic, trailing 8 bytes, footer length, footer read
       133-213   footer decoding (abstract: [decode])
-      604-618   File.ReadAt
-      1704-1717 readAt: the error of the io.ReaderAt is kept unless the buffer was filled
+      613-627   File.ReadAt
+      1765-1774 readAt: the error of the io.ReaderAt is kept unless the buffer was filled
+      1192-1268 FilePages.ReadPage, 1473-1510 readPage, 1536-1549 endOfChunk
     bytes.Reader.ReadAt stands for a well-behaved io.ReaderAt over the file image. *)
 From Coq Require Import List Arith Bool NArith.
 Import ListNotations.
@@ -46,7 +47,7 @@ Definition is_rerr (e : rerr) : bool := match e with RNone => false | _ => true 
 Definition readerat_ok (len : N) (r : N * rerr) : Prop :=
   fst r <= len /\ (fst r < len -> snd r <> RNone).
 
-(* file.go:1708  func readAt(r io.ReaderAt, p []byte, off int64) (n int, err error) *)
+(* file.go:1765  func readAt(r io.ReaderAt, p []byte, off int64) (n int, err error) *)
 Definition readat_wrap (len : N) (r : N * rerr) : N * rerr :=
   if fst r =? len then (fst r, RNone) else r.
 
@@ -66,7 +67,7 @@ Definition image_readat (f : list byte) (off : option N) (len : N) : N * rerr :=
       else let n := N.min len (flen f - o) in (n, if n <? len then REOF else RNone)
   end.
 
-(* file.go:604 func (f *File) ReadAt(b []byte, off int64): [ra off len] is the
+(* file.go:613 func (f *File) ReadAt(b []byte, off int64): [ra off len] is the
    underlying reader *)
 Definition file_readat (size : N) (ra : N -> N -> N * rerr) (off len : N) : N * rerr :=
   if size <=? off then (0, REOF)
@@ -97,12 +98,12 @@ Fixpoint read_all (f : list byte) (rs : list (N * N)) : option (list (list byte)
 
 (** OpenFile *)
 Inductive open_err :=
-| OShortHeader      (* "reading magic header of parquet file" (file.go:74) *)
+| OShortHeader      (* "reading magic header of parquet file" (file.go:75) *)
 | OBadHeaderMagic   (* "invalid magic header" (86) *)
 | ONeedDecryption   (* "encrypted footer ... no DecryptionConfig" (83) *)
-| OShortTail        (* "reading magic footer of parquet file" (108) *)
+| OShortTail        (* "reading magic footer of parquet file" (109) *)
 | OBadTailMagic     (* "invalid magic footer" (115) *)
-| OFooterRange      (* "reading footer of parquet file" (128) *)
+| OFooterRange      (* "reading footer of parquet file" (129) *)
 | OFooterDecode.    (* "reading parquet file metadata" / FileCryptoMetaData / decrypting footer (138-212) *)
 
 Inductive open_res (M : Type) := OpenErr (e : open_err) | OpenOk (m : M).
@@ -142,7 +143,7 @@ Section Open.
 End Open.
 
 (** FilePages.ReadPage over the section of one column chunk (file.go:1192-1268,
-    readPage 1473-1505, endOfChunk).  [pages]: (header length, body length) of
+    readPage 1473-1510, endOfChunk 1536-1549).  [pages]: (header length, body length) of
     the pages of the chunk in order; [size]: the sum of all of them
     (ColumnMetaData.TotalCompressedSize); [avail]: how many bytes of the section
     the source delivers (a source that ended early answers short reads with
